@@ -492,6 +492,13 @@ class _ExprRewrite(ast.NodeTransformer):
         # an empty format spec is no format spec
         if isinstance(node.format_spec, ast.Constant) and node.format_spec.value == '':
             node.format_spec = None
+        # a literal formatted with a literal specification is a literal
+        if isinstance(node.value, ast.Constant) and isinstance(node.value.value, (str, int, float)) and not isinstance(node.value.value, bool) \
+                and node.conversion == -1 and (node.format_spec is None or isinstance(node.format_spec, ast.Constant)):
+            try:
+                return ast.Constant(value=format(node.value.value, node.format_spec.value if node.format_spec is not None else ''))
+            except (ValueError, TypeError):
+                pass
         return node
 
     def visit_JoinedStr(self, node):
@@ -723,6 +730,20 @@ def assignments_to_ifexp(func):
                     block[i:i + 1] = new
                     changed = True
                     continue
+            # unpacking a side-effect-free value into names: a, b = E  ->  a = E[0]; b = E[1]
+            if isinstance(st, ast.Assign) and len(st.targets) == 1 and isinstance(st.targets[0], ast.Tuple) and not isinstance(st.value, ast.Tuple) \
+                    and all(isinstance(t, ast.Name) for t in st.targets[0].elts) and is_pure(st.value) and not _allocates(st.value) \
+                    and not isinstance(st.value, (ast.Call,)) or (isinstance(st, ast.Assign) and len(st.targets) == 1 and isinstance(st.targets[0], ast.Tuple)
+                                                               and all(isinstance(t, ast.Name) for t in st.targets[0].elts) and isinstance(st.value, ast.Subscript) and is_pure(st.value)):
+                tn = {t.id for t in st.targets[0].elts}
+                if not any(isinstance(n, ast.Name) and n.id in tn for n in ast.walk(st.value)):
+                    new = [ast.Assign(targets=[t], value=ast.Subscript(value=copy.deepcopy(st.value), slice=ast.Constant(value=k), ctx=ast.Load())) for k, t in enumerate(st.targets[0].elts)]
+                    for n in new:
+                        ast.copy_location(n, st)
+                        ast.fix_missing_locations(n)
+                    block[i:i + 1] = new
+                    changed = True
+                    continue
             if isinstance(st, ast.If):
                 def single_assign(br):
                     if len(br) == 1 and isinstance(br[0], ast.Assign) and len(br[0].targets) == 1 and isinstance(br[0].targets[0], ast.Name):
@@ -751,6 +772,37 @@ def assignments_to_ifexp(func):
                         i -= 1
                         continue
             i += 1
+    return changed
+
+
+def sink_constant_inits(func):
+    """`x = <literal>` is moved down to just before the first later statement of its block that mentions x: the order in which
+    independent counters and flags are initialised is immaterial"""
+    changed = False
+    params = set(_params(func))
+    # a name read by an exception handler / finally clause may be needed before its first ordinary use
+    in_handlers = set()
+    for t in ast.walk(func):
+        if isinstance(t, ast.Try):
+            for part in [h.body for h in t.handlers] + [t.finalbody]:
+                for s_ in part:
+                    in_handlers |= {n.id for n in ast.walk(s_) if isinstance(n, ast.Name)}
+    for owner, block in _all_blocks(func):
+        i = len(block) - 1
+        while i >= 0:
+            st = block[i]
+            if isinstance(st, ast.Assign) and len(st.targets) == 1 and isinstance(st.targets[0], ast.Name) and isinstance(st.value, ast.Constant) and st.targets[0].id not in params \
+                    and st.targets[0].id not in in_handlers:
+                x = st.targets[0].id
+                j = None
+                for k in range(i + 1, len(block)):
+                    if any(isinstance(n, ast.Name) and n.id == x for n in ast.walk(block[k])) or any(isinstance(n, ast.ExceptHandler) and n.name == x for n in ast.walk(block[k])):
+                        j = k
+                        break
+                if j is not None and j > i + 1:
+                    block.insert(j - 1, block.pop(i))
+                    changed = True
+            i -= 1
     return changed
 
 
@@ -1264,6 +1316,8 @@ def split_webs(func, counter):
         by_name.setdefault(d[1], set()).add(find(d))
     changed = False
     for name, roots in by_name.items():
+        if name in params:
+            roots = set(roots) | {find((ENTRY, name))}
         if name in nested or len(roots) < 2:
             continue
         entry_root = find((ENTRY, name)) if (ENTRY, name) in parent or name in params else None
@@ -1744,6 +1798,7 @@ def canonical(func, helpers=None, consts=None, sized=None, cls_name=None, props=
             m = return_of_assignment(f)
             if not (a or b or c or d or e or g or h or k or m):
                 break
+        sink_constant_inits(f)
         params = _params(f)
         _, stores, _ = _defs_and_uses(f)
         local_names = {n for n in stores if n not in params}
